@@ -43,6 +43,7 @@ type input struct {
 	Active int    `json:"active"` // heartbeat: members active during signing
 
 	Enforce *enforceIn `json:"enforce,omitempty"` // fn = enforce: see enforce.go
+	Loop    *loopIn    `json:"loop,omitempty"`    // fn = loop: see loop.go
 }
 
 var actionTypes = map[string]tbtc.WalletActionType{
@@ -92,6 +93,14 @@ func run(in input, em *lib.Emitter, id string) {
 			os.Exit(2)
 		}
 		runEnforce(*in.Enforce, em, id)
+		return
+	}
+	if in.Fn == "loop" {
+		if in.Loop == nil {
+			fmt.Fprintln(os.Stderr, "loop case without a script")
+			os.Exit(2)
+		}
+		runLoop(*in.Loop, em, id)
 		return
 	}
 	switch in.Fn {
@@ -256,6 +265,9 @@ func main() {
 		t, _ := tbtc.VerifC46NewActionTimings(actionTypes[a], 0, 0)
 		validity[a] = t.ValidityBlocks
 	}
+
+	// --- does the signing executor obey the deadline (first: the rest test wants a quiet process)
+	genLoops(o, rng.Fork("loops"), em)
 
 	// --- corpus: every action at the end of a real coordination window, expiry as node.go sets it
 	start := tbtc.VerifC46WindowEndBlock(20_000_700)
